@@ -389,7 +389,10 @@ class SSHChannel(Generic[AnyStr], SSHPacketHandler):
         else:
             decoded_data = cast(AnyStr, data)
 
-        if self._session is not None:
+        # A packet may hold only part of a multi-byte character, in which
+        # case there's nothing to deliver yet. Don't report empty data, as
+        # stream readers would take it for end of file.
+        if self._session is not None and decoded_data:
             self._session.data_received(decoded_data, datatype)
 
     def _accept_data(self, data: bytes, datatype: DataType = None) -> None:
